@@ -65,7 +65,8 @@ def requirements(tier):
             'json_sink_calls': 45000 if q else 600000,
             'json_indent_0': 2000 if q else 25000,
             'fd_checks': 120000 if q else 1600000,
-            'file_name_documents': 20}
+            'file_name_documents': 20,
+            'rewritten_file_loads': 3000 if q else 40000}
 
 
 _dir = None
@@ -229,6 +230,65 @@ def run_load(ctx, spec, text, origin='replay'):
     if len(ctx.samples) < 2 and base[0] == 'ok' and len(results) >= 5:
         ctx.sample({'document': text[:200], 'sources': sorted(results),
                     'outcome': short_d(db)}, 'load')
+
+
+def same_size_variants(rng, text, n):
+    """Documents of exactly the size of `text`: ASCII digits and letters
+    replaced by other digits / letters at one to three places."""
+    import string
+    spots = [i for i, ch in enumerate(text)
+             if ch in string.ascii_letters or ch in string.digits]
+    out = []
+    for _ in range(n):
+        if not spots:
+            break
+        chars = list(text)
+        for i in rng.sample(spots, min(len(spots), rng.randint(1, 3))):
+            pool = string.digits if chars[i] in string.digits else (
+                string.ascii_lowercase if chars[i].islower()
+                else string.ascii_uppercase)
+            chars[i] = rng.choice([c for c in pool if c != chars[i]])
+        out.append(''.join(chars))
+    return out
+
+
+def run_rewritten(ctx, spec, texts):
+    """History on the file system: ONE load function reads ONE path again
+    and again while the file's content is replaced by other documents of
+    the same size, its modification time put back to the same instant each
+    time (what copying with preserved times, or an edit within the clock's
+    resolution, gives).  Every read must give what the str gives."""
+    m = H.model_of(spec)
+    case = {'kind': 'rewritten', 'spec': spec, 'texts': texts}
+    try:
+        load = m.load_fn()
+    except Exception:
+        ctx.count('load_function_creation_failed')
+        return
+    path = workfile()
+    stamp = 1500000000 * 10 ** 9
+    for k, text in enumerate(texts):
+        if not encodable(text):
+            continue
+        with open(path, 'wb') as f:
+            f.write(text.encode('utf-8'))
+        os.utime(path, ns=(stamp, stamp))
+        m.reset()
+        base, _, _ = outcome(load, text)
+        m.reset()
+        r, fd_ok, fdinfo = outcome(load, pathlib.Path(path))
+        ctx.count('rewritten_file_loads')
+        if load_digest(*r) != load_digest(*base):
+            ctx.violation(
+                'C12 load outcome-differs source=Path vs str (%s vs %s) '
+                'file-rewritten-in-place' % (short_d(load_digest(*r)),
+                                             short_d(load_digest(*base))),
+                'read %d of a path whose content was replaced (same size, '
+                'same modification time): document %r: str gives %s, Path '
+                'gives %s' % (k + 1, text[:200], describe(base),
+                              describe(r)), case)
+            break
+    ctx.case(['rewritten', spec, texts], True)
 
 
 def run_load_bytes(ctx, spec, data, origin='replay'):
@@ -703,6 +763,14 @@ def shard(ctx):
                 run_load(ctx, spec, text, meta.get('origin'))
             if rng.random() < 0.3:
                 run_load(ctx, spec, rng.choice(NEWLINE_DOCS), 'newline')
+            if rng.random() < 0.5:
+                # the model's first (valid) document and same-size
+                # variants of it, through one path, then the first again
+                for text, meta in st.cases(spec, m, n_values=1):
+                    if len(text) <= 4096:
+                        vs = same_size_variants(rng, text, 3)
+                        run_rewritten(ctx, spec, [text] + vs + [text])
+                    break
             # dumps
             import checks.c06 as c06
             for t, v in c06.gen_values(ctx, spec, m, 3):
@@ -796,6 +864,8 @@ def replay(ctx, case):
     try:
         if case['kind'] == 'load':
             run_load(ctx, case['spec'], case['text'])
+        elif case['kind'] == 'rewritten':
+            run_rewritten(ctx, case['spec'], case['texts'])
         elif case['kind'] == 'locale':
             run_locale_config(ctx)
         elif case['kind'] == 'load_bytes':
